@@ -14,14 +14,23 @@ FILES = ["peg_parser/tokenizer.py", "peg_parser/subheader.py", "peg_parser/token
 BASELINE = os.path.join(VERIF, "baseline_obligations.json")
 
 
-def _tree_hash():
+def _engine_hash():
     h = hashlib.sha256()
     for root in (os.path.join(VERIF, "engine"), os.path.join(VERIF, "contracts")):
         for fn in sorted(os.listdir(root)):
             if fn.endswith(".py"):
                 h.update(open(os.path.join(root, fn), "rb").read())
-    for f in FILES:
-        h.update(open(os.path.join(REPO, f), "rb").read())
+    return h
+
+
+def _file_hash(f: str):
+    """cache key of one verified file: engine + contracts + the file + tokenizer.py (class shapes read constants from its __init__)"""
+    h = _engine_hash()
+    for g in dict.fromkeys([f, "peg_parser/tokenizer.py"]):
+        try:
+            h.update(open(os.path.join(REPO, g), "rb").read())
+        except OSError:
+            h.update(b"<missing>")
     return h.hexdigest()[:20]
 
 
@@ -42,37 +51,44 @@ def function_hash(src: str, qual: str) -> str:
 
 
 def run_all(tier: str):
-    """-> {contract name: {"vcs": [dict], "unsupported": str|None, "seconds": float, "fhash": str}} (cached per source state)"""
-    key = _tree_hash() + "-" + tier
-    cdir = os.path.join(VERIF, ".scratch")
+    """-> {contract name: {"vcs": [dict], "unsupported": str|None, "seconds": float, "fhash": str}} (cached per verified file and source state)"""
+    cdir = os.environ.get("VERIF_SCRATCH_DIR") or os.path.join(VERIF, ".scratch")
     os.makedirs(cdir, exist_ok=True)
-    cpath = os.path.join(cdir, f"e1-{key}.pkl")
-    if os.path.exists(cpath) and not os.environ.get("VERIF_NO_CACHE"):
-        try:
-            return pickle.load(open(cpath, "rb"))
-        except Exception:
-            pass
     from engine.run_e1 import verify_file
     out = {}
     timeout = 20000 if tier == "quick" else 60000
+    keep = set()
     for f in FILES:
-        src = open(os.path.join(REPO, f), encoding="utf-8").read()
-        try:
-            res = verify_file(REPO, f, None, timeout, both=(tier == "thorough"))
-        except SyntaxError as e:
-            out[f + ":<module>"] = {"vcs": [], "unsupported": f"source does not parse: {e}", "seconds": 0.0, "fhash": "syntax-error"}
-            continue
-        for name, d in res.items():
-            out[name] = {"unsupported": d["unsupported"], "seconds": d["seconds"], "fhash": function_hash(src, name.split(":")[1]),
-                         "vcs": [{"id": v.id, "kind": v.kind, "desc": v.desc, "status": v.status, "seconds": v.seconds,
-                                  "backend": v.backend, "model": v.model, "lineno": v.lineno} for v in d["vcs"]]}
+        tag = hashlib.sha256(f.encode()).hexdigest()[:6]
+        cpath = os.path.join(cdir, f"e1-{tag}-{_file_hash(f)}-{tier}.pkl")
+        keep.add(os.path.basename(cpath))
+        part = None
+        if os.path.exists(cpath) and not os.environ.get("VERIF_NO_CACHE"):
+            try:
+                part = pickle.load(open(cpath, "rb"))
+            except Exception:
+                part = None
+        if part is None:
+            part = {}
+            try:
+                src = open(os.path.join(REPO, f), encoding="utf-8").read()
+                res = verify_file(REPO, f, None, timeout, both=(tier == "thorough"))
+            except SyntaxError as e:
+                part[f + ":<module>"] = {"vcs": [], "unsupported": f"source does not parse: {e}", "seconds": 0.0, "fhash": "syntax-error"}
+                res = {}
+            for name, d in res.items():
+                part[name] = {"unsupported": d["unsupported"], "seconds": d["seconds"], "fhash": function_hash(src, name.split(":")[1]),
+                              "vcs": [{"id": v.id, "kind": v.kind, "desc": v.desc, "status": v.status, "seconds": v.seconds,
+                                       "backend": v.backend, "model": v.model, "lineno": v.lineno} for v in d["vcs"]]}
+            pickle.dump(part, open(cpath + ".tmp", "wb"))
+            os.replace(cpath + ".tmp", cpath)
+        out.update(part)
     for old in os.listdir(cdir):
-        if old.startswith("e1-") and old != os.path.basename(cpath):
+        if old.startswith("e1-") and old.endswith(f"-{tier}.pkl") and old not in keep and not os.environ.get("VERIF_KEEP_CACHE"):
             try:
                 os.unlink(os.path.join(cdir, old))
             except OSError:
                 pass
-    pickle.dump(out, open(cpath, "wb"))
     return out
 
 
